@@ -32,7 +32,7 @@ from coqfmt import zraw, b, lst, opt, tup
 
 replay = common.generic_replay
 
-PRELUDE = '''From Model Require Import Graph Kekule.
+PRELUDE = '''From Model Require Import Graph Kekule Thiele.
 Import ListNotations.
 Open Scope Z_scope.
 Definition A (n num chg h : Z) : Z * atom := (n, mkAtom num None chg false (Some h) None).
@@ -74,6 +74,16 @@ Definition cls_code (num chg : Z) (rad : bool) (nb : Z) (h : option Z) (indb : b
   end.
 Definition cls_row (num chg nb : Z) (indb : bool) (codes : list Z) : bool :=
   list_eqb Z.eqb (map (fun rh => cls_code num chg (fst rh) nb (snd rh) indb) rh8) codes.
+(* Thiele.thiele(fix_tautomers=False): result flag, bond orders of the result and - when the real code got as far as _sssr -
+   the pruned skeleton (keys in dict order, sets up to order), its ring count and the freak rings *)
+Definition sk_eqb (a b : adjl) : bool := forallb2 (fun x y => (fst x =? fst y) && same_keys_z (snd x) (snd y)) a b.
+Definition th_ok (g : mol) (sssr rings2 : list (list Z)) (fok : list bool) (ret : bool) (g' : mol)
+                 (reached : bool) (sk : adjl) (ns : Z) (freaks : list (list Z)) : bool :=
+  match thiele_model g sssr rings2 fok with
+  | Ok o => Bool.eqb (o_result o) ret && same_orders (o_mol o) g' && same_orders g' (o_mol o) &&
+            (negb reached || (sk_eqb (o_skeleton o) sk && (o_nsssr o =? ns) && list_eqb (list_eqb Z.eqb) (o_freaks o) freaks))
+  | Err _ => false
+  end.
 (* the search _kekule_component: first yields, raise flag *)
 Definition E (a p o : Z) : kentry := (a, p, o).
 Definition kentry_eqb (x y : kentry) : bool := let '(a, p, o) := x in let '(a', p', o') := y in (a =? a') && (p =? p') && (o =? o').
@@ -184,7 +194,7 @@ class Cases:
 
         def one(k):
             defs, cases = shards[k]
-            ok, failing, log = coqcases.run_cases(f'{self.name}_{k}', 'Graph Kekule', [c[0] for c in cases],
+            ok, failing, log = coqcases.run_cases(f'{self.name}_{k}', 'Graph Kekule Thiele', [c[0] for c in cases],
                                                   extra=PRELUDE + '\n'.join(defs), shard=10 ** 9)
             return ok, [cases[i] + (dmap[id(cases[i])],) for i in failing], log
 
@@ -690,6 +700,19 @@ class Pipe:
         coq_thiele = full or kind in ('curated', 'malformed', 'arenes.sdf')     # renumbered bulk inputs: Kekule side only (Coq volume)
         if coq_thiele:
             defs.append(f'Definition a{i} := {mol_t(a)}.')
+            # the algorithm-level model of thiele(fix_tautomers=False) on the same Kekule form
+            try:
+                tdef, tcase, tf, tret, treached, tfreaks = thiele_case(k, f'k{i}', f'tr{i}', i)
+                defs.append(f'Definition tr{i} : list (list Z) := {sssr_t(k)}.')
+                defs.append(tdef)
+                cases.append((tcase, ('thiele model', label, list(m0._atoms)), 'prep'))
+                ck.case(('thiele model', tag, label), nontrivial=tret)
+                ck.count(f'thiele model: returned-{tret}' + (' (freak rings)' if tfreaks else '') + ('' if treached else ' before the ring search'))
+                if snap(tf) != snap(a):
+                    ck.count('thiele: fix_tautomers=True gives another result than fix_tautomers=False')
+            except Exception as e:
+                self.bad(True, f'thiele-crash:{type(e).__name__}:{smi}', f'thiele(fix_tautomers=False) raises {type(e).__name__}', label, repr(e), 'an aromatic form',
+                         'exception class', code_of('m.kekule(); m.thiele(fix_tautomers=False)'))
         tcode = code_of('m.kekule(); h0=[a.implicit_hydrogens for _,a in m.atoms()]; print(m); m.thiele(); print(m, h0, [a.implicit_hydrogens for _,a in m.atoms()])')
         s0, s1 = snap(k), snap(a)
         if [x[:5] for x in s0[0]] != [x[:5] for x in s1[0]] or [(n, [q for q, _ in nb]) for n, nb in s0[1]] != [(n, [q for q, _ in nb]) for n, nb in s1[1]]:
@@ -1010,6 +1033,52 @@ def same_structure(s1, s2):
     return c1 is not None and c1 == c2
 
 
+class FreakWrap:
+    """a freak_rules query that records (ring scope, matched) of every get_mapping call"""
+    def __init__(self, q, log):
+        self.q, self.log = q, log
+
+    def get_mapping(self, mol, **kw):
+        res = list(itertools.islice(self.q.get_mapping(mol, **kw), 1))
+        self.log.append((tuple(kw.get('searching_scope') or ()), bool(res)))
+        return iter(res)
+
+
+def thiele_case(m, gname, rname, i):
+    """real thiele(fix_tautomers=False) on a copy of the Kekule form m with the inputs of Model.Thiele.thiele_model recorded
+    (what _sssr finds in the pruned skeleton, which freak rings match); returns (definition, case, result molecule, flags)"""
+    import chython.algorithms.aromatics.thiele as tm
+    rec, flog = {}, []
+    orig_sssr, orig_freaks = tm._sssr, tm.freak_rules
+
+    def rec_sssr(rings, n):
+        rec['sk'] = [(k, sorted(v)) for k, v in rings.items()]
+        rec['n'] = n
+        out = orig_sssr(rings, n)
+        rec['rings2'] = [list(r) for r in out]
+        return out
+    tm._sssr = rec_sssr
+    tm.freak_rules = [FreakWrap(q, flog) for q in orig_freaks]
+    a = m.copy()
+    try:
+        ret = a.thiele(fix_tautomers=False)
+    finally:
+        tm._sssr, tm.freak_rules = orig_sssr, orig_freaks
+    freaks, fok = [], []
+    for scope, ok in flog:
+        if scope not in freaks:
+            freaks.append(scope)
+            fok.append(ok)
+        elif ok:
+            fok[freaks.index(scope)] = True
+    reached = 'sk' in rec
+    sk = lst([tup(zraw(k), lst(v, zraw)) for k, v in rec.get('sk', [])])
+    r2 = lst([lst(r, zraw) for r in rec.get('rings2', [])])
+    fr = lst([lst(list(r), zraw) for r in freaks])
+    case = f'th_ok {gname} {rname} {r2} {lst(fok, b)} {b(ret)} tf{i} {b(reached)} {sk} {rec.get("n", 0)} {fr}'
+    return f'Definition tf{i} := {mol_t(a)}.', case, a, ret, reached, bool(freaks)
+
+
 def kc_case(rings, dbl, dbs, pyr, bs, k_yields, ys, raised, verdicts):
     rt = lst([tup(zraw(n), lst(ms, zraw)) for n, ms in rings.items()])
     yt = lst([lst([f'E {zraw(a)} {zraw(p_)} {o}' for a, p_, o in y]) for y in ys])
@@ -1314,7 +1383,7 @@ def run(ck):
                         'test/heterocycles_charges.smi, a lipophilicity.csv sample; each also under one random renumbering. non-trivial = the molecule has '
                         'aromatic bonds and the conversion produced a form (not InvalidAromaticRing); grid: the state is accepted; search: the generator yielded')
     t00 = time.time()
-    proved = common.standard_proof_steps(ck, translators=['elements'])
+    proved = common.standard_proof_steps(ck, translators=['elements'], extra_targets=['model/Thiele.vo'])
     t_proof = time.time()
     rules_need_aromatic_atom(ck)
     cs = Cases('c05')
